@@ -366,6 +366,18 @@ def handleSpecC01 (args : List Sexp) (v : Variant := {}) : Sexp :=
            | .list [.atom "r", .atom "rejected"] =>
              -- rejected although every state has a defined value? only counted (over-rejection is C05's business)
              go (k + 1) cmp und (skipped + 1) bad ps (rs.drop 1)
+           | .list [.atom "r", .atom "constant"] =>
+             -- folded to a constant (no eval function in the header): the specification must then give ONE value
+             -- in all states of the batch — a binding whose value depends on the state must have an update path
+             -- (states in which the specification leaves the value undefined do not count: an undefined operation in
+             -- a statement whose value is dropped does not make the result state-dependent)
+             let sv := (specValues p prop prog v (batchDoc k)).filterMap fun x => x.map fun y => optShow (some y)
+             let varies := match sv with
+               | [] => false
+               | x :: xs => xs.any (· != x)
+             if varies then
+               go (k + 1) cmp und skipped (bad ++ [.list [.atom "p", .ofNat k, .atom "constant-but-state-dependent"]]) ps (rs.drop 1)
+             else go (k + 1) cmp und (skipped + 1) bad ps (rs.drop 1)
            | .list [.atom "r", .atom _] => go (k + 1) cmp und (skipped + 1) bad ps (rs.drop 1)
            | other => go (k + 1) cmp und skipped (bad ++ [.list [.atom "p", .ofNat k, .atom "unreadable", other]]) ps (rs.drop 1))
       go 0 0 0 0 [] p.progs rs
